@@ -47,6 +47,30 @@ pub fn check_kind(t: &Trace<'_>, m: &Model, out: &mut CaseOut, prop: &'static st
             }
         }
     }
+    // (b') the model stops attributing packets to a request once its acknowledgement was consumed:
+    // a later packet with the same identifier and the same bytes is that request sent again
+    for o in &m.orphans {
+        let rec = &w.conns[o.tx.conn].out.packets[o.tx.idx];
+        let matches_kind = match (&rec.pkt, kind) {
+            (CPacket::Publish { qos: 1, .. }, "publish1") | (CPacket::Publish { qos: 2, .. }, "publish2") => true,
+            (CPacket::Subscribe { .. }, "subscribe") | (CPacket::Unsubscribe { .. }, "unsubscribe") => true,
+            _ => false,
+        };
+        if !matches_kind || !t.conns[o.tx.conn].stream_ok {
+            continue;
+        }
+        let b = raw(w, &o.tx);
+        let again = m.msgs.iter().filter(|x| x.kind == kind && x.epoch == t.epoch_at[o.tx.ev]).find(|x| {
+            x.ack.as_ref().is_some_and(|a| a.ev < o.tx.ev) && x.txs.first().is_some_and(|f| {
+                let base = raw(w, f);
+                base.len() == b.len() && base[1..] == b[1..] && (base[0] & !8) == (b[0] & !8)
+            })
+        });
+        if let Some(x) = again {
+            let a = x.ack.as_ref().unwrap();
+            out.violations.push(viol(prop, format!("{}/transmit-after-ack/{}", prop, kind), format!("op#{} id {} transmitted again on conn {} after its acknowledgement (code {:#x}) had been consumed", x.op, x.pid, o.tx.conn, a.code)));
+        }
+    }
     // (c) every resumed, drained connection carries each outstanding message exactly once
     for ci in t.conns.iter().filter(|c| c.established && c.connack.as_ref().is_some_and(|k| k.0)) {
         let Some(e_d) = drained_at(t, ci.idx) else { continue };
